@@ -255,6 +255,9 @@ func (r *runner) refineDamage(c *caseRec, l *clog, data []byte, d dmgRec, rng *r
 		switch d.B {
 		case 5:
 			n = 10 + rng.Intn(31)
+			if r.insLen > 0 {
+				n = r.insLen
+			}
 		}
 		g := make([]byte, n)
 		fill(g, nil, d.G, rng)
@@ -382,6 +385,115 @@ func (r *runner) faithful(c *caseRec, l *clog, f cfile) bool {
 		}
 	}
 	return true
+}
+
+// conStart locates frame i (0-based) of the undamaged log in the damaged file through its checksum field.
+func conStart(l *clog, f cfile, i int) (int, bool) {
+	crcOff := l.starts[i] + 6
+	switch {
+	case f.cutLen > 0 && crcOff >= f.cutAt && crcOff < f.cutAt+f.cutLen:
+		return 0, false
+	case f.cutLen > 0 && crcOff >= f.cutAt+f.cutLen:
+		crcOff -= f.cutLen
+	case f.insLen > 0 && crcOff >= f.cutAt:
+		crcOff += f.insLen
+	}
+	if f.truncAt >= 0 && crcOff >= f.truncAt {
+		return 0, false
+	}
+	return crcOff - 6, crcOff >= 6
+}
+
+// sizable returns the symbol of frame i whose run may have any length (the value of a SET), or -1.
+func sizable(c *caseRec, i int) int {
+	e := c.Log[i]
+	switch e % 16 {
+	case 2:
+		return 50 + e/16
+	case 3:
+		return 65 + e/16
+	}
+	return -1
+}
+
+// align chooses run lengths (r.sizes) or the length of a long inserted garbage (r.insLen) such that the first
+// frame the scan of replayAOF has to resynchronise to starts exactly Boundary+Delta bytes after the end of
+// the last frame applied before it, with the file continuing for two more Boundary lengths: the read
+// windows and buffers of the recovery code are then crossed at every offset of the window.
+func (r *runner) align(c *caseRec) bool {
+	r.sizes, r.insLen = map[int]int{}, 0
+	target := c.Boundary + c.Delta
+	longIns := len(c.Dmg) == 1 && c.Dmg[0].K == "ins" && c.Dmg[0].B == 5
+	for iter := 0; iter < 8; iter++ {
+		l, err := r.buildLog(c)
+		if err != nil {
+			return false
+		}
+		files, err := r.concreteFiles(c, l, rand.New(rand.NewSource(c.Seed^0x5eed)))
+		if err != nil || len(files) == 0 {
+			return false
+		}
+		f := files[0]
+		prevEnd, prevIdx, j, gap := 0, 0, 0, 0
+		for _, s := range c.Surv {
+			st, ok := conStart(l, f, s-1)
+			if !ok || st < prevEnd {
+				return false
+			}
+			if st > prevEnd {
+				j, gap = s, st-prevEnd
+				break
+			}
+			prevEnd, prevIdx = st+len(l.frames[s-1].bytes), s
+		}
+		if j == 0 {
+			return false
+		}
+		needTail := prevEnd + 1 + 2*c.Boundary - len(f.data)
+		if gap == target && needTail <= 0 {
+			return true
+		}
+		knob := -1
+		if gap != target {
+			if longIns {
+				r.insLen = f.insLen + target - gap
+				if r.insLen < 10 {
+					return false
+				}
+			} else {
+				for k := prevIdx; k < j-1 && knob < 0; k++ { // frames strictly between (0-based k)
+					knob = sizable(c, k)
+				}
+				if knob < 0 {
+					return false
+				}
+				n := len(l.st.run(knob)) + target - gap
+				if n < 4 {
+					return false
+				}
+				r.sizes[knob] = n
+			}
+		}
+		if needTail > 0 {
+			tail := -1
+			for k := j - 1; k < len(c.Log) && tail < 0; k++ {
+				if s := sizable(c, k); s >= 0 && s != knob {
+					coupled := false
+					for b := prevIdx; b < j-1; b++ {
+						coupled = coupled || sizable(c, b) == s
+					}
+					if !coupled {
+						tail = s
+					}
+				}
+			}
+			if tail < 0 {
+				return false
+			}
+			r.sizes[tail] = len(l.st.run(tail)) + needTail + 16
+		}
+	}
+	return false
 }
 
 // concreteFiles refines the (one or two) damages of a case.
